@@ -10,7 +10,7 @@ Confirmed changes are copied to /verif/seeded/<id>/ with the confirmation record
 import json, os, re, shutil, subprocess, sys, time
 
 VERIF = os.path.dirname(os.path.dirname(os.path.abspath(__file__)))
-SRC = '/tmp/seeded-out'
+SRC = os.environ.get('SEED_SRC', '/tmp/seeded-out')
 WT = '/tmp/wt-verify'
 ENV = dict(os.environ, CARGO_NET_OFFLINE='true', CARGO_TARGET_DIR=WT + '/target')
 
